@@ -83,7 +83,7 @@ def check_case(ctx, case):
         return
     inputs, ctext, lam_params, b = prep
     role, is_async = case["role"], case["async"]
-    text, _, _ = RD.module_text(ctext, lam_params, role=role, is_async=is_async)
+    text, _, _, _ = RD.module_text(ctext, lam_params, role=role, is_async=is_async)
     value, nodes, rec = OR.record(ctext, b, list(b))
     with RD.Module(text) as mod:
         exc = RD.call(mod, role, is_async, inputs)
@@ -277,6 +277,10 @@ DIRECTED = [
     ("m[0, 1] > 1000", ["m"], {}),
     ("(w1 := x + 1) > 1000 and w1 > 0", ["x"], {}),
     ("f'{x!r}{s:>4}' == 'zz'", ["x", "s"], {}),
+    ("ident(G) is not None", ["G"], {"G": None}),
+    ("all(y > 1 for y in xs if y != 5 if 10 // (y - 5) < 100)", ["xs"], {"xs": [7, 5, 0]}),
+    ("all(len(v) < 3 for v in [xs, ys])", ["xs", "ys"], {"xs": list(range(40)), "ys": [1]}),
+    ("all(v != s for v in [CS, s])", ["s"], {"s": "abcxyz" * 12}),
 ]
 
 
@@ -294,7 +298,7 @@ def run(ctx, tier, seed, shard, nshards):
 
 def directed(ctx, only=None):
     base = {"x": 2, "n": 3, "s": "ab", "xs": [1, 5, 2], "ys": [4], "ss": [1, 2], "d": {"a": 1}, "t": [3, 4],
-            "o": {"n": 1, "items": [2], "child": None}, "m": [[1, 2], [3, 4]], "id": 3, "Y": -1000}
+            "o": {"n": 1, "items": [2], "child": None}, "m": [[1, 2], [3, 4]], "id": 3, "Y": -1000, "G": 5}
     for i, (text, params, over) in enumerate(DIRECTED):
         if only is not None and only != i:
             continue
